@@ -82,3 +82,65 @@ Theorem C01_route_checker_decides_the_route_predicate : forall V E S T simple r,
   is_start E S (hd 0%N r) = true /\ is_end E T (last r 0%N) = true /\ (simple = true -> NoDup r).
 Proof. exact valid_route_b_correct. Qed.
 Print Assumptions C01_route_checker_decides_the_route_predicate.
+
+(* ---- audit: instances of exactly the hypotheses of the theorems above ---- *)
+(* the augmentation theorems on the diamond with an additional start: hypotheses and both directions of the characterisation *)
+Example C01_augmentation_hypotheses_hold :
+  let V := [1; 2; 3; 4]%N in let E := [(1, 2); (1, 3); (2, 4); (3, 4)]%N in
+  ~ In 10%N V /\ ~ In 11%N V /\ 10%N <> 11%N /\ (forall e, In e E -> In (fst e) V /\ In (snd e) V) /\
+  (In (10, 3)%N (aug_edges V E [3%N] [] 10%N 11%N) /\ is_start E [3%N] 3%N = true) /\
+  (~ In (10, 2)%N (aug_edges V E [3%N] [] 10%N 11%N) /\ is_start E [3%N] 2%N = false) /\
+  (* a walk of the augmented graph through the additional start, stripped: a route of the caller's graph *)
+  incl (pairs (10 :: [3; 4] ++ [11]))%N (aug_edges V E [3%N] [] 10%N 11%N).
+Proof.
+  cbv zeta. split; [cbn; intuition discriminate|]. split; [cbn; intuition discriminate|]. split; [discriminate|].
+  split. { intros e He. cbn in He. repeat (destruct He as [<-|He]; [cbn; tauto|]). destruct He. }
+  split; [split; [vm_compute; tauto|vm_compute; reflexivity]|].
+  split; [split; [vm_compute; intuition discriminate|vm_compute; reflexivity]|].
+  intros e He. vm_compute in He. vm_compute. tauto.
+Qed.
+Print Assumptions C01_augmentation_hypotheses_hold.
+
+(* C01_dag_layer_decodes_to_simple_route: the diamond exG of PathEncExample is the augmentation of the caller's graph with the two
+   isolated nodes 1, 2 (each a start and an end); with a satisfying assignment of its kFlowDecomp LP (k = 2) every hypothesis holds *)
+From FP Require Import PathEncExample.
+Example C01_dag_layer_hypotheses_hold : exists a : var -> Q,
+  ~ In (g_src exG) [1; 2]%N /\ ~ In (g_snk exG) [1; 2]%N /\
+  (forall e, In e (@nil edge) -> In (fst e) [1; 2]%N /\ In (snd e) [1; 2]%N) /\
+  (forall e, In e (g_edges exG) <-> In e (aug_edges [1; 2]%N [] [] [] (g_src exG) (g_snk exG))) /\
+  wf_graph exG /\ (forall u v, In (u, v) (g_edges exG) -> (exRank u < exRank v)%nat) /\ (forall v, (exRank v <= 3)%nat) /\
+  Forall (sat_col a) (edge_cols exG 2) /\ Forall (sat_row a) (path_rows exG 2 false) /\ In 0%N (layers 2) /\
+  exists p, decode (g_edges exG) (xval a 0%N) (g_snk exG) 4 (g_src exG) = Some p /\ removelast p <> [] /\
+            (forall v, In v (removelast p) -> In v [1; 2]%N).
+Proof.
+  destruct ex_lp_feasible_2 as (a & Hsat). exists a.
+  assert (H1 : ~ In (g_src exG) [1; 2]%N) by (cbn; intuition discriminate).
+  assert (H2 : ~ In (g_snk exG) [1; 2]%N) by (cbn; intuition discriminate).
+  assert (H3 : forall e, In e (@nil edge) -> In (fst e) [1; 2]%N /\ In (snd e) [1; 2]%N) by (intros e []).
+  assert (H4 : forall e, In e (g_edges exG) <-> In e (aug_edges [1; 2]%N [] [] [] (g_src exG) (g_snk exG))) by (intros e; vm_compute; tauto).
+  pose proof (proj1 (kfd_cols_sat (exI 2) a Hsat)) as Hc. pose proof (proj1 (kfd_rows_sat (exI 2) a Hsat)) as Hr.
+  assert (Hi : In 0%N (layers 2)) by (vm_compute; tauto).
+  repeat (split; [first [assumption | exact ex_wf | exact ex_rank | exact ex_rank_le]|]).
+  destruct (C01_dag_layer_decodes_to_simple_route [1; 2]%N [] [] [] exG 2 a exRank 3 0%N H1 H2 H3 H4 ex_wf ex_rank ex_rank_le Hc Hr Hi)
+    as (p & Hd & _ & Hne & _ & HV & _).
+  exists p. split; [exact Hd|]. split; assumption.
+Qed.
+Print Assumptions C01_dag_layer_hypotheses_hold.
+
+(* C01_walk_reconstruction_is_one_walk: the multigraph of C14's example (nested closed walks, a triple self-loop) meets the hypotheses *)
+Example C01_walk_reconstruction_hypotheses_hold :
+  let es := map (fun '(u, v, m) => ((u, v), inject_Z (Z.of_nat m))) ex_edges in
+  let g0 := residual_q es in
+  5%N <> 6%N /\ exc g0 5%N = 1%Z /\ exc g0 6%N = (-1)%Z /\ forallb (fun x => (exc g0 x =? 0)%Z) [0; 1; 2; 3; 4]%N = true /\
+  solution_walk es 5%N 6%N = Some (O, [0; 1; 2; 1; 2; 3; 2; 3; 2; 1; 1; 1; 1; 4]%N).
+Proof. vm_compute. repeat split; try reflexivity; discriminate. Qed.
+Print Assumptions C01_walk_reconstruction_hypotheses_hold.
+
+(* degenerate inputs, made explicit: r = [] is not a route (the conclusion r <> [] of C01_stripped_walk_is_route_of_callers_graph is
+   what makes the defaults of [hd] / [last] irrelevant); the route checker rejects the empty route and a route leaving the graph *)
+Example C01_degenerate_routes_are_rejected :
+  valid_route_b [1; 2]%N [(1, 2)]%N [] [] true [] = false /\ valid_route_b [1; 2]%N [(1, 2)]%N [] [] true [1; 3]%N = false /\
+  valid_route_b [1; 2]%N [(1, 2)]%N [] [] true [1; 2]%N = true /\
+  ~ incl (pairs (10 :: [] ++ [11]))%N (aug_edges [1; 2]%N [(1, 2)]%N [] [] 10%N 11%N).
+Proof. repeat split; try (vm_compute; reflexivity). intros H. specialize (H (10, 11)%N (or_introl eq_refl)). vm_compute in H. intuition discriminate. Qed.
+Print Assumptions C01_degenerate_routes_are_rejected.
